@@ -1,6 +1,7 @@
 import JominiModel.Proofs.BinTapeItems
 import JominiModel.Proofs.BinTapeInv
 import JominiModel.Proofs.BinTapePayload
+import JominiModel.Proofs.BinTapePairs
 /-
 C06 (binary half) — the theorems to be re-exported by `Props/C06.lean`.
 `WfBinTape` (Proofs/BinTapeItems.lean) is the declarative predicate, `wfBinTape` (Model/BinTape.lean)
@@ -44,6 +45,82 @@ whenever either parser accepts, on any input whatsoever, the tape is structurall
 theorem C06_bin_inv (opt : Bool) (data : Bytes) (toks : Tape) (h : parse opt data = .ok toks) :
     WfBinTape toks :=
   parse_wf opt data toks h
+
+/-- **Objects are what they say** (the theorem behind the L3 oracle `bin-tape-object-pairs`).  For every
+accepted input and both parser variants the tape is a sequence of good items (`GSeq`, Proofs/BinTapePairs.lean):
+plain tokens, arrays of good items, and objects whose body — up to its first `MixedContainer` marker, or
+its end — is a sequence of `key value` pairs, every key a plain token that is not a container start, an
+`End` or the marker (`Body … K`/`M` at the close; a body ending in a key without a value, phase `V`, is
+excluded), values plain tokens or good containers, and behind a marker any good items.
+Proved as an invariant of the loop (`GInv`: the chain of open containers, each open object with its body
+phase, coupled to the parser state; `step_ginv`).  This is NOT implied by `WfBinTape` (which only speaks of
+delimiters): `[T, O4, T, T, T, E1]` is `WfBinTape` but not `GSeq`. -/
+theorem C06_bin_object_pairs (opt : Bool) (data : Bytes) (toks : Tape) (h : parse opt data = .ok toks) :
+    GSeq toks :=
+  parse_good opt data toks h
+
+/-- the strengthened soundness predicate of the binary tape: delimiters (`WfBinTape`) and object
+classification (`GSeq`) -/
+def WfBinTapeP (toks : Tape) : Prop := WfBinTape toks ∧ GSeq toks
+
+theorem C06_bin_inv_pairs (opt : Bool) (data : Bytes) (toks : Tape) (h : parse opt data = .ok toks) :
+    WfBinTapeP toks :=
+  ⟨C06_bin_inv opt data toks h, C06_bin_object_pairs opt data toks h⟩
+
+/-- a marker-free, container-free body in phase `K` has an even number of tokens (pairs), in phase `V` an
+odd number; it cannot be in phase `M` -/
+theorem Body.parity : ∀ {l : Tape} {ph : Phase}, Body l ph → (∀ x ∈ l, x.isKey = true) →
+    (ph = .K → l.length % 2 = 0) ∧ (ph = .V → l.length % 2 = 1) ∧ ph ≠ .M
+  | _, _, .nil, _ => ⟨fun _ => rfl, (by intro h; cases h), (by decide)⟩
+  | _, _, .key hb _, hk => by
+    have := Body.parity hb (fun x hx => hk x (by simp [hx]))
+    refine ⟨(by intro h; cases h), fun _ => ?_, (by decide)⟩
+    have := this.1 rfl; simp; omega
+  | _, _, .valPlain hb _, hk => by
+    have := Body.parity hb (fun x hx => hk x (by simp [hx]))
+    refine ⟨fun _ => ?_, (by intro h; cases h), (by decide)⟩
+    have := this.2.1 rfl; simp; omega
+  | _, _, .valCont _ hc, hk => by
+    obtain ⟨l', i, rfl⟩ := hc.last_end
+    have := hk (.end_ i) (by simp)
+    simp [BTok.isKey, BTok.isPlain] at this
+  | _, _, .mixed _, hk => by
+    have := hk .mixed (by simp)
+    simp [BTok.isKey] at this
+  | _, _, .afterPlain hb _, hk => by
+    have := Body.parity hb (fun x hx => hk x (by simp [hx]))
+    exact absurd rfl this.2.2
+  | _, _, .afterCont hb _, hk => by
+    have := Body.parity hb (fun x hx => hk x (by simp [hx]))
+    exact absurd rfl this.2.2
+
+/-- the witness of the seeded defect C06_r7_2 is excluded: an `Object` with three body tokens is not good -/
+example : ¬ GCont [.object 5, .token 1, .token 2, .token 3, .end_ 1] := by
+  intro h
+  generalize hm : [BTok.object 5, .token 1, .token 2, .token 3, .end_ 1] = c at h
+  cases h with
+  | arr e i _ => simp at hm
+  | @obj inner ph e i hb hne =>
+    simp at hm
+    obtain ⟨_, hm⟩ := hm
+    have hin : inner = [.token 1, .token 2, .token 3] := by
+      have : [BTok.token 1, .token 2, .token 3] ++ [BTok.end_ 1] = inner ++ [BTok.end_ i] := by simpa using hm
+      exact (List.append_inj_left' this (by simp)).symm
+    subst hin
+    have hp := hb.parity (by intro x hx; simp at hx; rcases hx with rfl | rfl | rfl <;> rfl)
+    cases ph with
+    | K => have := hp.1 rfl; simp at this
+    | V => exact hne rfl
+    | M => exact hp.2.2 rfl
+
+/-- a good tape: `id = { id = I32 5 }` -/
+example : GSeq [.token 1, .object 4, .token 2, .i32 5, .end_ 1] := by
+  have hb : Body [.token 2, .i32 5] .K := by
+    have := Body.valPlain (Body.key Body.nil (k := .token 2) rfl) (v := .i32 5) rfl
+    simpa using this
+  have hc : GCont (.object 4 :: ([.token 2, .i32 5] ++ [.end_ 1])) := GCont.obj 4 1 hb (by decide)
+  have := GSeq.cont (GSeq.plain GSeq.nil (x := .token 1) rfl) hc
+  simpa using this
 
 /-- **Payload clause.**  Whenever either parser accepts, on any input whatsoever, every token of the
 tape is structural (`Array` / `Object` / `End` / `MixedContainer`) or is the decoding of the lexeme
